@@ -441,6 +441,72 @@ func run(e *core.Env) {
 		}
 	}
 
+	// Focused phase in a quarter of the runs: a slow handshake whose last records arrive a
+	// round number of seconds after the connection was opened - to the microsecond, so that any
+	// timer a router has set for this connection fires in the instant of the delivery and its
+	// goroutine runs interleaved with the setup goroutine (at the lock boundaries). However
+	// the handshake ends, the registry invariants hold afterwards.
+	if tp.Chance(1, 4) {
+		i := tp.Intn(n)
+		j := tp.Intn(n - 1)
+		if j >= i {
+			j++
+		}
+		time.Sleep(time.Duration(1000+tp.Intn(500)) * time.Millisecond)
+		t0 := time.Now()
+		att := linkpair.Dial(cn, S[i], S[j])
+		atts = append(atts, att)
+		hold := 1 + tp.Intn(2)
+		delivered := 0
+		for guard := 0; guard < 40 && delivered < 6-hold; guard++ {
+			var next *simnet.Record
+			for _, r := range cn.Heads() {
+				if r.Conn == att.Pair {
+					next = r
+					break
+				}
+			}
+			if next == nil {
+				break
+			}
+			cn.Deliver(next)
+			delivered++
+		}
+		d := []time.Duration{time.Second, 2 * time.Second, 3 * time.Second, 5 * time.Second, 10 * time.Second, 15 * time.Second, 20 * time.Second, 30 * time.Second, 45 * time.Second, time.Minute, 90 * time.Second, 2 * time.Minute}[tp.Intn(12)]
+		at := t0.Add(d)
+		if tp.Chance(1, 4) {
+			at = at.Add(-time.Microsecond) // just before
+		}
+		note("slow handshake r%d>r%d (conn %d): %d records delivered, the rest exactly %v after the dial", i, j, att.Pair.ID, delivered, d)
+		for guard := 0; guard < 40; guard++ {
+			var next *simnet.Record
+			for _, r := range cn.Heads() {
+				if r.Conn == att.Pair {
+					next = r
+					break
+				}
+			}
+			if next == nil {
+				break
+			}
+			cn.DeliverAt(next, at)
+		}
+		e.Fault("delay")
+		settle(true)
+		cn.DrainFIFO(tp, 300)
+		settle(true)
+		if att.Result.Done && att.Result.Link != nil {
+			learn(att.Result.Link, byIP[att.Client.Node.IP], "returned by link setup")
+		}
+		if att.Result.Panic != "" {
+			fail("setup-panic:"+core.PanicClass(att.Result.Panic), "link setup panicked")
+		}
+		learn(S[i].Node.Peering.GetLink(S[j].Node.IP), i, "found in registry")
+		learn(S[j].Node.Peering.GetLink(S[i].Node.IP), j, "found in registry")
+		invariants()
+		e.Probe("slow_handshake_ending_at_a_round_offset")
+	}
+
 	nSteps := 10 + tp.Intn(70)
 	for s := 0; s < nSteps; s++ {
 		e.Step()
